@@ -60,9 +60,34 @@ func sameSet(a, b LockSet) bool {
 	return true
 }
 
-type lockState struct{ Must, May LockSet }
+// lockState: Region maps a held lock to the sequence number of the acquisition that started the
+// current critical section (-1 when paths with different acquisitions merge).
+type lockState struct {
+	Must, May LockSet
+	Region    map[string]int
+}
 
-func (s lockState) clone() lockState { return lockState{s.Must.clone(), s.May.clone()} }
+func (s lockState) clone() lockState {
+	r := map[string]int{}
+	for k, v := range s.Region {
+		r[k] = v
+	}
+	return lockState{s.Must.clone(), s.May.clone(), r}
+}
+
+func mergeRegion(a, b map[string]int) map[string]int {
+	r := map[string]int{}
+	for k, v := range a {
+		if w, ok := b[k]; ok {
+			if v == w {
+				r[k] = v
+			} else {
+				r[k] = -1
+			}
+		}
+	}
+	return r
+}
 
 // Visit is one instruction seen in one calling context.
 type Visit struct {
@@ -72,6 +97,7 @@ type Visit struct {
 	Local   DNF // reaching condition inside Ctx.Fn only
 	Must    LockSet
 	May     LockSet
+	Region  map[string]int
 	InDefer bool
 	Seq     int
 }
@@ -108,7 +134,7 @@ func (e *Engine) Walk(root *ssa.Function, opts WalkOpts) *Walker {
 	}
 	w := &Walker{E: e, Opts: opts}
 	ctx := e.rootCtx(root)
-	w.walkFn(ctx, dnfTrue(), lockState{LockSet{}, LockSet{}}, false)
+	w.walkFn(ctx, dnfTrue(), lockState{LockSet{}, LockSet{}, map[string]int{}}, false)
 	return w
 }
 
@@ -201,12 +227,12 @@ func (w *Walker) walkFn(c *Ctx, entry DNF, ls lockState, inDefer bool) lockState
 					st = po.clone()
 					first = false
 				} else {
-					st = lockState{intersect(st.Must, po.Must), union(st.May, po.May)}
+					st = lockState{intersect(st.Must, po.Must), union(st.May, po.May), mergeRegion(st.Region, po.Region)}
 				}
 			}
 			if first {
 				// block only reachable via back edges or unreachable
-				st = lockState{LockSet{}, LockSet{}}
+				st = lockState{LockSet{}, LockSet{}, map[string]int{}}
 			}
 		}
 		in[b] = st.clone()
@@ -226,7 +252,7 @@ func (w *Walker) walkFn(c *Ctx, entry DNF, ls lockState, inDefer bool) lockState
 		}
 		for _, insn := range b.Instrs {
 			w.seq++
-			v := &Visit{Ctx: c, Instr: insn, Cond: full, Local: bc, Must: st.Must.clone(), May: st.May.clone(), InDefer: inDefer, Seq: w.seq}
+			v := &Visit{Ctx: c, Instr: insn, Cond: full, Local: bc, Must: st.Must.clone(), May: st.May.clone(), Region: st.Region, InDefer: inDefer, Seq: w.seq}
 			w.Visits = append(w.Visits, v)
 			switch x := insn.(type) {
 			case *ssa.Call:
@@ -248,7 +274,7 @@ func (w *Walker) walkFn(c *Ctx, entry DNF, ls lockState, inDefer bool) lockState
 					e := st.clone()
 					exit = &e
 				} else {
-					e := lockState{intersect(exit.Must, st.Must), union(exit.May, st.May)}
+					e := lockState{intersect(exit.Must, st.Must), union(exit.May, st.May), mergeRegion(exit.Region, st.Region)}
 					exit = &e
 				}
 			}
@@ -306,9 +332,11 @@ func (w *Walker) doCall(c *Ctx, site ssa.Instruction, cc *ssa.CallCommon, cond D
 			if acq {
 				n.Must[id] = true
 				n.May[id] = true
+				n.Region[id] = w.seq
 			} else {
 				delete(n.Must, id)
 				delete(n.May, id)
+				delete(n.Region, id)
 			}
 			return n
 		}
